@@ -860,7 +860,7 @@ func (g *G) makeSlice(ins *ssa.MakeSlice, ln, cp IntV) Value {
 		if l < 0 || l > c {
 			g.tpanic("makeslice", "makeslice: len out of range", ins.Pos())
 		}
-		if c < 0 || c > 1<<40 {
+		if c < 0 || c > 1<<48 {
 			g.tpanic("makeslice", "makeslice: cap out of range", ins.Pos())
 		}
 		if c > 1<<22 {
@@ -886,7 +886,7 @@ func (g *G) makeSlice(ins *ssa.MakeSlice, ln, cp IntV) Value {
 	if !g.branch(ok, "makeslice-len") {
 		g.tpanic("makeslice", "makeslice: len out of range", ins.Pos())
 	}
-	capok := tb.Cmp(OpSLe, ct, tb.Const(1<<47, 64))
+	capok := tb.Cmp(OpSLe, ct, tb.Const(1<<48, 64))
 	if !g.branch(capok, "makeslice-cap") {
 		g.tpanic("makeslice", "makeslice: cap out of range", ins.Pos())
 	}
